@@ -221,17 +221,17 @@ MUTANTS = [
      "        self.fit_info = defaultdict(list)\n\n"
      "    def __repr__(self):"),
     ('C09', 'aperture_setter_without_cache_reset', 'aperture/attributes.py',
-     "            value = float(value)\n\n"
+     "            value = float(value)\n"
      "        # no need to reset if not already in the instance dict\n"
      "        if self.name in instance.__dict__:\n"
      "            self._reset_lazyproperties(instance)\n",
-     "            value = float(value)\n\n"),
+     "            value = float(value)\n"),
     ('C09', 'positions_setter_without_cache_reset', 'aperture/attributes.py',
-     "        value = self._validate(value)  # np.ndarray\n\n"
+     "        value = self._validate(value)  # np.ndarray\n"
      "        # no need to reset if not already in the instance dict\n"
      "        if self.name in instance.__dict__:\n"
      "            self._reset_lazyproperties(instance)\n",
-     "        value = self._validate(value)  # np.ndarray\n\n"),
+     "        value = self._validate(value)  # np.ndarray\n"),
     ('C09', 'unnormalize_keeps_normalization_value', 'profiles/core.py',
      "                                             * self.normalization_value)\n"
      "        self.normalization_value = 1.0\n",
@@ -297,7 +297,13 @@ def mutants(pids=None, budget=25):
             shutil.copytree('/repo/photutils', os.path.join(root, 'photutils'),
                             ignore=shutil.ignore_patterns('__pycache__',
                                                           'tests'))
-            apply_mutant(os.path.join(root, 'photutils'), relfile, old, new)
+            try:
+                apply_mutant(os.path.join(root, 'photutils'), relfile, old,
+                             new)
+            except RuntimeError as e:
+                print(f'mutant {pid}/{name}: BROKEN-ANCHOR {e}')
+                fails += 1
+                continue
             t0 = time.time()
             rc, out = run_on_copy(pid, root, budget)
             vio = [ln for ln in out.splitlines() if ln.startswith(
